@@ -90,6 +90,8 @@ Lemma nosig_set_frames fs : nosig (set_frames fs).
 Proof. intros s r s' H x Hx. inversion H; subst. discriminate. Qed.
 Lemma nosig_emit b : nosig (emit b).
 Proof. intros s r s' H x Hx. inversion H; subst. discriminate. Qed.
+Lemma nosig_note_signal t : nosig (note_signal t).
+Proof. intros s r s' H x Hx. inversion H; subst. discriminate. Qed.
 Lemma nosig_log_io evs : nosig (log_io evs).
 Proof. intros s r s' H x Hx. inversion H; subst. discriminate. Qed.
 Lemma nosig_raise {A} e : nosig (@raise_err A e).
@@ -133,7 +135,7 @@ Ltac sprim :=
         | apply nosig_m_alloc | apply nosig_upd_heap | apply nosig_with_heap
         | apply nosig_set_local | apply nosig_set_global | apply nosig_set_retval
         | apply nosig_set_rule_root | apply nosig_set_root | apply nosig_set_frames
-        | apply nosig_emit | apply nosig_log_io
+        | apply nosig_emit | apply nosig_log_io | apply nosig_note_signal
         | apply nosig_raise | apply nosig_push_frame | apply nosig_pop_frame
         | apply nosig_rt_error | apply nosig_tok_string | apply nosig_get_variable ]
     | apply sig_fail; let x := fresh in let H := fresh in intros x H; discriminate H ].
